@@ -89,10 +89,14 @@ Proof.
   intros h h' H H' P N f args Hd. assert (E := spec_order_free h h' H H' P N). destruct E as (E1 & E2 & E3).
   assert (Hd' : defined (decls h') f = true) by (rewrite <- (oi_defined h h' H H' P N); exact Hd).
   rewrite (make_instance_code_rule h f args H Hd), (make_instance_code_rule h' f args H' Hd'). unfold s_make_code.
-  assert (Ei : s_initable (decls h) f = s_initable (decls h') f).
-  { unfold s_initable, decls. rewrite (E1 f). destruct (decl_of (ss_decls (spec h')) f); [| reflexivity]. apply s_acc_ext; assumption. }
-  assert (Er : s_required (decls h) f = s_required (decls h') f) by (unfold s_required, decls; rewrite (E1 f); reflexivity).
-  rewrite Ei, Er. apply init_gen_ext.
+  assert (Ei : forall g, s_initable (decls h) g = s_initable (decls h') g).
+  { intros g. unfold s_initable, decls. rewrite (E1 g). destruct (decl_of (ss_decls (spec h')) g); [| reflexivity]. apply s_acc_ext; assumption. }
+  assert (Er : forall g, s_required (decls h) g = s_required (decls h') g) by (intros g; unfold s_required, decls; rewrite (E1 g); reflexivity).
+  assert (Eia : s_initable_all (decls h) f = s_initable_all (decls h') f).
+  { unfold s_initable_all. rewrite (oi_prec h h' H H' P N f). apply flat_map_ext_in. intros g _. apply Ei. }
+  assert (Era : s_required_inh (decls h) f = s_required_inh (decls h') f).
+  { unfold s_required_inh. rewrite (oi_prec h h' H H' P N f). f_equal. apply flat_map_ext_in. intros g _. apply Er. }
+  rewrite Eia, Era. apply init_gen_ext.
   - intros x. rewrite (oi_var h h' H H' P N f x). reflexivity.
   - intros x. rewrite (oi_key h h' H H' P N f x). reflexivity.
 Qed.
